@@ -117,6 +117,32 @@ CHECKS["C11"] = dict(
          "are accepted).",
     design="4/C11")
 
+CHECKS["C18"] = dict(
+    technique="differential testing of nine gateway drivers against hand-written reference wire encoders/decoders over "
+              "the 16-bit frame space, sampled 24-bit commands, sequence-number histories and all status codes",
+    text="For Tridonic HID, hasseb HID, LUBA, SCI, daliserver, ATX hat, legacy Tridonic, legacy hasseb and UniPi: every "
+         "16-bit frame (thorough: all 65 536; quick: every third) and sampled 24-bit commands are sent through fake "
+         "transports and the bytes compared with harness/ref_wire.py field by field (frame bits, mode/length code, "
+         "send-twice flag or double write, priority, padding, checksum); 700-send sequence-number histories; unsupported "
+         "lengths must be refused; every status/type code x payload of each gateway's report decodes to what the reference "
+         "says. Two unrepaired findings are listed in KNOWN_FINDINGS.txt.",
+    note="Trusted: harness/ref_wire.py, written from the field layouts in the drivers' docstrings/constants and knowledge of "
+         "the gateways (vendor documents are not in the sandbox; ref_wire.ASSUMPTIONS lists what could not be checked "
+         "independently); import stubs for usb/hid/pymodbus.client.sync. LUBA/SCI framing-error reports may surface as "
+         "'no answer' (C16 states these drivers only log them).",
+    design="4/C18")
+CHECKS["C19"] = dict(
+    technique="grammar-guided Hypothesis byte streams and deterministic sweeps fed to the real receiver state machines "
+              "under several chunkings; differential against reference deframers",
+    text="LUBA and SCI protocol objects receive generated streams (valid frames of every type, every length byte 0..255, "
+         "bad checksums, unknown types, truncations, noise with embedded sync bytes, trailing well-formed frame) whole, "
+         "byte-wise and under two random chunkings; raw-answer, confirmation, info and observed-command queues must equal "
+         "the reference deframer's, no exception may escape data_received, chunking must not matter. Streams containing a "
+         "checksum-valid frame malformed for its type are set aside and counted.",
+    note="Trusted: the reference deframers in harness/ref_wire.py; resynchronisation rule (a dropped LUBA frame is consumed "
+         "whole; SCI frames are aligned every five bytes) adopted from the driver's documented behaviour.",
+    design="4/C19")
+
 NOT_BUILT_REASON = "check not built yet in this round (planned, see DESIGN.md section 4); not claimed until it is registered"
 
 
